@@ -21,7 +21,7 @@ import (
 func init() {
 	mon.Register(&mon.Prop{
 		ID: "C13", Race: true, Level: "exploration",
-		Rule: "record lists of length 1..200 with names of printable characters and sequences of 0..300000 letters (incl. the boundary lengths 65535, 65536, 65537 and single lines of 300000); write direction Build -> Parse, Write -> Read, gzip -> ReadGz; re-layouts by the harness's own writer (wrap width 1..250 or none, blank lines, ';' comment lines, CRLF, gzip); a complete grid of sequence lines of k*4096+d and k*65536+d letters (k 1..4, d -3..3) with LF and CRLF, single and wrapped; streaming: ParseConcurrent in a harness goroutine with channel capacities {0,1,2,7,64,1000}, PRNG-stalled consumers and a reader that returns 1..k bytes per call (sometimes data together with EOF), under the race detector; non-trivial = list with >= 2 records or a sequence longer than one line; distinct by hash of the laid-out text",
+		Rule: "record lists of length 1..200 with names of printable characters and sequences of 0..300000 letters (incl. the boundary lengths 65535, 65536, 65537 and single lines of 300000); write direction Build -> Parse, Write -> Read, gzip -> ReadGz; re-layouts by the harness's own writer (wrap width 1..250 or none, blank lines, ';' comment lines, CRLF, gzip); a complete grid of sequence lines of k*4096+d and k*65536+d letters (k 1..4, d -3..3) with LF and CRLF, single and wrapped; streaming: ParseConcurrent in a harness goroutine with channel capacities {0,1,2,7,64,1000}, PRNG-stalled consumers, an order-stress series (50..300 short records, capacities 0..8, a consumer spinning 0..3000 iterations per record) and a reader that returns 1..k bytes per call (sometimes data together with EOF), under the race detector; non-trivial = list with >= 2 records or a sequence longer than one line; distinct by hash of the laid-out text",
 		Assumptions: []string{
 			"oracle: the input list; closed-exactly-once is decided without blocking after the producer has returned (an open, empty channel whose producer is gone was never closed; a second close or a send after close panics in the harness goroutine and is recorded)",
 			"a wall-clock watchdog per streaming case (120 s) only yields inconclusive",
@@ -206,6 +206,8 @@ func (d *dribbleReader) Read(p []byte) (int, error) {
 	return n, nil
 }
 
+var spinSink int
+
 type streamResult struct {
 	recs        []fasta.Fasta
 	closedSeen  bool   // consumer observed the close
@@ -231,6 +233,7 @@ func streamParse(r *rand.Rand, text []byte, capacity int, stall int, dribble int
 	watchdog := time.After(120 * time.Second)
 	producerDone := false
 	longStallAt := r.Intn(4)
+	spinMax := []int{0, 50, 400, 3000}[r.Intn(4)]
 	for {
 		if l := len(ch); l > res.maxLen {
 			res.maxLen = l
@@ -247,6 +250,10 @@ func streamParse(r *rand.Rand, text []byte, capacity int, stall int, dribble int
 		case 3:
 			if len(res.recs)%7 == 3 {
 				time.Sleep(time.Duration(r.Intn(3)) * time.Millisecond)
+			}
+		case 5: // a consumer that is only a little slower than the parser: a short spin per record
+			for i := r.Intn(spinMax + 1); i > 0; i-- {
+				spinSink++
 			}
 		case 4: // one long stall (0.6..1.2 s) while records are waiting: the parser has to wait as long as it takes
 			if len(res.recs) == longStallAt {
@@ -488,6 +495,43 @@ func runC13(w *mon.W) {
 		default:
 			if d := diffFasta(want, res.recs); d != "" {
 				w.Violation(id, fmt.Sprintf("records received from ParseConcurrent (capacity %d, stall pattern %d, chunk %d): %s", capacity, stall, dribble, d), rep)
+			}
+		}
+		w.End()
+	}
+	// order stress: many short records, small channels, a consumer about as fast as the parser - whatever
+	// the parser does when the channel is momentarily full, the records arrive in file order
+	for k := 0; k < w.Pick(3000, 60000); k++ {
+		id := fmt.Sprintf("order-%d", k)
+		idx++
+		if !w.Want(id, idx) {
+			continue
+		}
+		r := w.Rand(id)
+		n := 50 + r.Intn(250)
+		want := make([]fasta.Fasta, n)
+		for i := range want {
+			want[i] = fasta.Fasta{Name: fmt.Sprintf("r%d %s", i, gen.RandWordAlnum(r, 1+r.Intn(8))), Sequence: randString(r, "ACGT", 1+r.Intn(30))}
+		}
+		text := fasta.Build(append([]fasta.Fasta(nil), want...))
+		capacity := r.Intn(9)
+		w.Begin(id, fmt.Sprintf("%d short records, capacity %d, spinning consumer", n, capacity))
+		res := streamParse(r, text, capacity, 5, 0, false)
+		w.Eval(true, mon.Hash64(string(text), fmt.Sprint(capacity)))
+		w.Add("order_stress_runs", 1)
+		w.Add("records_streamed", int64(len(res.recs)))
+		w.Max("max_channel_occupancy", int64(res.maxLen))
+		rep := map[string]any{"records": n, "capacity": capacity, "received": len(res.recs)}
+		switch {
+		case res.timedOut:
+			w.Inconclusive(fmt.Sprintf("%s: streaming run did not finish within the 120 s wall-clock watchdog", id))
+		case res.panicMsg != "":
+			w.Violation(id, fmt.Sprintf("ParseConcurrent (capacity %d): %s after %d of %d records", capacity, res.panicMsg, len(res.recs), n), rep)
+		case res.neverClosed:
+			w.Violation(id, fmt.Sprintf("ParseConcurrent returned without closing its channel (capacity %d, %d of %d records received)", capacity, len(res.recs), n), rep)
+		default:
+			if d := diffFasta(want, res.recs); d != "" {
+				w.Violation(id, fmt.Sprintf("records received from ParseConcurrent by a consumer spinning briefly per record (capacity %d): %s", capacity, d), rep)
 			}
 		}
 		w.End()
